@@ -218,6 +218,7 @@ pub fn convert<'a, R: Reader<Offset = usize> + 'a>(mk: &dyn Fn(&'a [u8]) -> R, c
         let mut sections = Sections::new(FaultWriter::probed(endian, write_fail_at, &ctx.sim));
         let (mut units, mut splits) = (0usize, 0usize);
         let mut helper_oks = 0u64;
+        let mut unit_write_failed = false;
         {
             let mut conv = out.convert(&dwarf)?;
             while let Some((mut unit, root)) = conv.read_unit()? {
@@ -252,12 +253,20 @@ pub fn convert<'a, R: Reader<Offset = usize> + 'a>(mk: &dyn Fn(&'a [u8]) -> R, c
                 stepwise_unit(&mut unit, root, &convert_address, sel)?;
                 helper_oks += direct_helpers(&unit, &convert_address, n);
                 match mode {
-                    1 => unit.write(&mut sections).map_err(write::ConvertError::Write)?,
+                    1 => {
+                        // a failed per-unit write is ignored by this caller: the remaining units
+                        // are still converted and `Dwarf::write` is still called at the end, as
+                        // the documentation of `ConvertUnit::write` requires
+                        if unit.write(&mut sections).is_err() {
+                            unit_write_failed = true;
+                        }
+                    }
                     2 => unit.skip(),
                     _ => {}
                 }
             }
         }
+        let _ = unit_write_failed;
         out.write(&mut sections).map_err(write::ConvertError::Write)?;
         Ok((units, splits, helper_oks))
     })();
